@@ -408,7 +408,20 @@ func kindOf(outs []string, class string) string {
 	return k
 }
 
+// capN: ./check's focused search asks for max(5*cases, 20000) cases; every case here creates real ledgers, so the
+// request is clamped to what fits the run's time-out.
+func capN(max int) {
+	for i := 1; i+1 < len(os.Args); i++ {
+		if os.Args[i] == "-n" || os.Args[i] == "--n" {
+			if v, err := strconv.Atoi(os.Args[i+1]); err == nil && v > max {
+				os.Args[i+1] = strconv.Itoa(max)
+			}
+		}
+	}
+}
+
 func main() {
+	capN(3000)
 	defer func() {
 		if base != "" {
 			os.RemoveAll(base)
